@@ -25,6 +25,13 @@ ASSUMPTIONS = [
     "scaled integers; astar_grid costs are compared with the exact optimum in Z[sqrt2] within 1e-9*(1+cost)",
     "all [C] and [S] theorems of DESIGN §4 C11 are proved (no open theorem); the certificate checkers are still "
     "evaluated on every explored input, on the mirror's and on the implementation's answers",
+    "inexact-double family (decimal fractions, tiny weights, planted cycles whose decimal sum is 0): every clause is decided "
+    "on the EXACT rational values of the doubles (scaled to integers for Lean); a finite reported distance / path weight "
+    "may differ from the exact one by the forward-error bound eps = n * 2^-52 * sum|w|; UNBOUNDED is tolerated when a "
+    "reachable cycle of k edges weighs less than k*eps, a missed exactly-negative cycle only when the reported distances "
+    "are a feasible potential within eps (verified checker `feasible` on weights + eps) and the start's distance is not "
+    "negative; a call that does not return within 0.4 s on these <= 7-node graphs is a failure; R_trace is not applied to "
+    "this family (float rounding may legitimately pick another tie)",
     "astar: only heuristics that are admissible and consistent on the instance with weight=1 are held to "
     "optimality; other heuristics / weights are run and held to path validity only",
 ]
@@ -32,7 +39,7 @@ RULE = ("random digraphs (1..9 nodes, thorough ..12; duplicate edges, self loops
         "weights and planted negative cycles for bellman_ford/floyd_warshall; int/str/tuple/mixed labels; goal as value, "
         "predicate, missing value, None; max_iter / max_cost cut-offs; five heuristic families, weights 1, 3/2, 2) on which "
         "all applicable solvers are run, and grids up to 7x7 (thorough 9x9) with random obstacles, terrain costs, 4/8 "
-        "neighbours and every heuristic name, plus 12 (thorough 36) large structured grids of 40..60 per side (walls with two "
+        "neighbours and every heuristic name, 2500 (thorough 30000) small graphs with inexact double weights, plus 12 (thorough 36) large structured grids of 40..60 per side (walls with two "
         "gaps at opposite ends and a start chosen so that the two detours nearly tie, serpentine corridors, open fields, "
         "diagonal barriers, terrain); non-trivial = the mirror improved an already known distance at least once "
         "(decrease-key / second relaxation); distinct by canonical input")
@@ -154,6 +161,56 @@ def _resolve_labels(case, oddstyle):
     if case["labels"] == "odd":
         case["labels"] = oddstyle
     return case
+
+
+FP_DECIMALS = [0.1, 0.2, 0.3, 0.4, 0.5, 0.6, 0.7, 0.8, 0.9, 1.1, 1.3, 2.7, 3.7, 9.25, 9.5, 10.0, 0.01, 0.07, 0.15, 0.35,
+               1e-3, 1e-9, 1e-12, 2.5e-15, 1 / 3, 2 / 3, 0.0, 2.0]
+FP_ZERO_CYCLES = [[0.3, -0.9, 0.6], [0.1, 0.2, -0.3], [0.7, -0.4, -0.3], [1.1, -0.8, -0.3], [0.1, -0.1], [0.35, 0.15, -0.5],
+                  [1 / 3, 1 / 3, -2 / 3], [0.6, -0.7, 0.1], [2.7, -3.7, 0.9, 0.1], [1e-9, 0.3, -0.3, -1e-9]]
+
+
+def gen_graph_fp(rng):
+    """Inexact doubles: decimal fractions, tiny weights and planted cycles whose DECIMAL sum is 0 (so that the exact
+    sum of the doubles is a tiny positive, zero or tiny negative number).  Weights travel as exact scaled integers
+    (scale a power of two), the implementation gets exactly those doubles."""
+    n = rng.choice([2, 3, 4, 5, 5, 6, 7])
+    nonneg = rng.random() < 0.35
+    ws = []
+    edges = []
+    for _ in range(rng.randint(1, 3 * n)):
+        w = rng.choice(FP_DECIMALS)
+        if not nonneg and rng.random() < 0.08:
+            w = -w
+        edges.append([rng.randrange(n), rng.randrange(n), w])
+    if not nonneg:
+        for _ in range(rng.randint(1, 2)):
+            cyc = rng.choice(FP_ZERO_CYCLES)
+            cyc = cyc[rng.randrange(len(cyc)):] + cyc[:0]
+            k = len(cyc)
+            nodes = [rng.randrange(n) for _ in range(k)] if k > n else rng.sample(range(n), k)
+            rot = rng.randrange(k)
+            cw = cyc[rot:] + cyc[:rot]
+            for i in range(k):
+                edges.insert(rng.randrange(len(edges) + 1), [nodes[i], nodes[(i + 1) % k], cw[i]])
+    exact = [Fraction(w) for _, _, w in edges]
+    scale = 1
+    for f in exact:
+        scale = max(scale, f.denominator)
+    edges = [[u, v, int(f * scale)] for (u, v, _), f in zip(edges, exact)]
+    s = rng.randrange(n)
+    r = rng.random()
+    goal = {"mode": "value", "set": [rng.randrange(n)]} if r < 0.7 else {"mode": "pred", "set": sorted(rng.sample(range(n), rng.randint(1, min(n, 2))))}
+    hv, hk = [0] * n, "zero"
+    if nonneg and rng.random() < 0.5:
+        dt = _py_dists_to(n, edges, goal["set"])
+        fin = [x for x in dt if x is not None]
+        top = max(fin) if fin else 0
+        cand = [int(Fraction(float(Fraction(x if x is not None else top, scale))) * scale) for x in dt]
+        if all(Fraction(float(Fraction(x if x is not None else top, scale))) * scale == c for x, c in zip(dt, cand)):
+            hv, hk = cand, "exact_rounded"
+    return {"kind": "graph", "fp": True, "n": n, "edges": edges, "scale": scale, "labels": "int", "s": s, "goal": goal,
+            "max_iter": None, "max_cost": None, "h": {"kind": hk, "vals": hv}, "aw": [1, 1],
+            "bf_target": rng.choice([None, rng.randrange(n), rng.randrange(n)]), "fw_directed": rng.random() < 0.75}
 
 
 HEURS = ["auto", "manhattan", "octile", "euclidean", "chebyshev"]
@@ -359,6 +416,26 @@ def _call(fn, *a, **k):
         return {"err": type(e).__name__, "msg": str(e)[:160]}
 
 
+def _call_timed(secs, fn, *a, **k):
+    """like _call, but a call that does not return within `secs` gives {"err": "Timeout"} (the worker survives)"""
+    import signal
+
+    def on_alarm(signum, frame):
+        raise TimeoutError("call did not return")
+
+    old = signal.signal(signal.SIGALRM, on_alarm)
+    signal.setitimer(signal.ITIMER_REAL, secs)
+    try:
+        return fn(*a, **k)
+    except TimeoutError:
+        return {"err": "Timeout", "msg": f"no result after {secs} s"}
+    except Exception as e:  # noqa: BLE001
+        return {"err": type(e).__name__, "msg": str(e)[:160]}
+    finally:
+        signal.setitimer(signal.ITIMER_REAL, 0)
+        signal.signal(signal.SIGALRM, old)
+
+
 def _res_path(r, back):
     if isinstance(r, dict):
         return r
@@ -444,7 +521,12 @@ def impl_graph(case):
         else:
             out["dijkstra_edges"] = {"status": r.status.name, "obj": _num(r.objective),
                                      "sol": sorted([k, _num(v)] for k, v in r.solution.items())}
-    r = _call(bellman_ford, case["s"], fedges, n, target=case["bf_target"], backend="python")
+    if case.get("fp"):  # inexact doubles: also the all-distances mode (feasibility of what is reported)
+        r = _call_timed(0.4, bellman_ford, case["s"], fedges, n, backend="python")
+        out["bellman_ford_all"] = r if isinstance(r, dict) else {
+            "status": r.status.name, "obj": _num(r.objective),
+            "sol": None if r.solution is None else sorted([k, _num(v)] for k, v in r.solution.items())}
+    r = _call_timed(0.4, bellman_ford, case["s"], fedges, n, target=case["bf_target"], backend="python")
     if isinstance(r, dict):
         out["bellman_ford"] = r
     elif case["bf_target"] is None and r.solution is not None:
@@ -502,6 +584,11 @@ def _pathlike(o):
     return isinstance(o, dict) and isinstance(o.get("sol"), list) and all(isinstance(x, int) for x in o["sol"])
 
 
+def fp_eps(case):
+    """forward-error bound for sums of at most n doubles of the instance, in scaled units: n * 2^-52 * sum|w| (+2)"""
+    return case["n"] * sum(abs(w) for _, _, w in case["edges"]) // 2 ** 52 + 2
+
+
 def graph_request(case, out):
     """Returns (request, keys): keys[i] names the i-th sub-query."""
     n, sc, s = case["n"], case["scale"], case["s"]
@@ -530,6 +617,26 @@ def graph_request(case, out):
         add("m:dijkstra_edges", ["dijkstra", s, T, None, None] if et is not None else ["dall", s])
     add("m:bellman_ford", ["bf", s, case["bf_target"]])
     add("m:floyd_warshall", ["fw", case["fw_directed"]])
+    if case.get("fp"):
+        eps = fp_eps(case)
+        add("refd", ["refd", s, eps])
+        add("fwrefd", ["fwrefd", case["fw_directed"], eps])
+        o = out.get("bellman_ford_all") if isinstance(out, dict) else None
+        if isinstance(o, dict) and isinstance(o.get("sol"), list):
+            tab = [None] * n
+            okk = True
+            for k, v in o["sol"]:
+                x = scaled(v, sc)
+                okk = okk and x is not None
+                tab[k] = x
+            if okk:
+                add("feas:bf", ["feas", True, eps, tab])
+        o = out.get("floyd_warshall") if isinstance(out, dict) else None
+        if isinstance(o, dict) and isinstance(o.get("sol"), list):
+            for i, row in enumerate(o["sol"]):
+                tab = [(None if x == "inf" else scaled(x, sc)) for x in row]
+                if all(x is not None or y == "inf" for x, y in zip(tab, row)):
+                    add(f"feas:fw:{i}", ["feas", case["fw_directed"], eps, tab])
 
     def chk(name, unit, goalset, bound):
         o = out.get(name) if isinstance(out, dict) else None
@@ -591,7 +698,7 @@ class J:
 def check_found(j, fn, o, chk, optimal: bool, max_cost=None, scale=1, unit=False):
     """o = implementation answer with a path; chk = [distCert, pathOK, pathCost, infeasOK] from Lean.
     Returns True if every clause held."""
-    dc, po, pc, _ = chk
+    dc, po, pc = chk[0], chk[1], chk[2]
     cost = scaled(o["obj"], 1 if unit else scale)
     if not _pathlike(o) or any(x < 0 for x in o["sol"]):
         j.fail(fn, "path_unknown_node", f"returned path {o['sol']} contains something that is not a node")
@@ -649,6 +756,154 @@ def judge_search(j, fn, o, m, chk, ok_status, optimal, n, max_iter, max_cost, sc
         ctx.count("r_trace_agree")
 
 
+def _frac(num, sc):
+    """objective [num, den] -> exact Fraction in scaled units, or None (inf / nan)"""
+    return Fraction(num[0], num[1]) * sc if isinstance(num, list) else None
+
+
+def judge_fp(j, ctx, case, out, R, ref_status, ref_dist):
+    """Inexact doubles.  Every clause is decided on the EXACT rational values of the doubles (the Lean side works on
+    the scaled integers); a finite reported distance may differ from the exact one by the forward-error bound
+    eps = n * 2^-52 * sum|w|.  Failures outright: a call that does not return, a negative distance of the start, a
+    non-UNBOUNDED answer although an exactly negative cycle is reachable AND the reported distances are not a feasible
+    potential within eps, UNBOUNDED although every reachable cycle weighs at least (its length) * eps."""
+    n, sc, s = case["n"], case["scale"], case["s"]
+    T, gm = case["goal"]["set"], case["goal"]["mode"]
+    eps = fp_eps(case)
+    nonneg = all(e[2] >= 0 for e in case["edges"])
+    ctx.count("fp:cases")
+    ctx.count("fp:exact_ref:" + ref_status)
+
+    def close(a, b):
+        return a is not None and b is not None and abs(a - b) <= eps
+
+    def found_ok(fn, o, c, optimum):
+        """o: implementation answer with a path; c: chk reply; optimum: exact least distance (scaled int) or None"""
+        pc, ends = c[2], c[4]
+        cost = _frac(o["obj"], sc)
+        if not _pathlike(o) or pc is None:
+            j.fail(fn, "path_uses_missing_edge", f"returned path {o['sol']} is empty or uses a step that is not an edge")
+        elif not ends:
+            j.fail(fn, "path_endpoints", f"returned path {o['sol']} does not start at the source / end at a goal")
+        elif not close(cost, pc):
+            j.fail(fn, "path_sum_mismatch:fp", f"reported {o['obj']} differs from the exact weight {pc}/{sc} of the returned "
+                   f"path by more than eps={eps}/{sc}")
+        elif optimum is not None and pc - optimum > eps:
+            j.fail(fn, "dist_not_shortest:fp", f"returned path weighs {pc}/{sc}, the exact shortest distance is {optimum}/{sc} "
+                   f"(eps={eps}/{sc})")
+        else:
+            ctx.count("cert_checked_impl")
+
+    # ---- bellman_ford --------------------------------------------------------------------------------
+    fn = "bellman_ford"
+    oa, ot = out["bellman_ford_all"], out["bellman_ford"]
+    for o in (oa, ot):
+        if "err" in o:
+            j.fail(fn, "no_return" if o["err"] == "Timeout" else "raises:" + o["err"],
+                   f"bellman_ford did not return / raised on a valid input: {o.get('msg')}")
+    if "err" not in oa:
+        ctx.count("fp:bellman_ford:" + oa["status"])
+        dist = {k: _frac(v, sc) for k, v in (oa["sol"] or [])}
+        if oa["status"] != "UNBOUNDED":
+            if dist.get(s) is None or dist[s] < 0:
+                j.fail(fn, "negative_source_distance", f"status {oa['status']} with distance {dist.get(s)} (scaled) from the "
+                       "start to itself")
+            elif ref_status == "UNBOUNDED":
+                if R.get("feas:bf") is not True:
+                    j.fail(fn, "missed_negative_cycle:not_a_potential",
+                           f"status {oa['status']} although an exactly negative cycle is reachable, and the reported "
+                           f"distances violate d[v] <= d[u] + w + eps on some edge (eps={eps}/{sc})")
+                else:
+                    ctx.count("fp:tolerated:tiny_negative_cycle")
+            else:
+                want = {v: ref_dist[v] for v in range(n) if ref_dist[v] is not None}
+                if set(dist) != set(want) or any(not close(dist[v], want[v]) for v in want):
+                    j.fail(fn, "distances_wrong:fp", f"distances {oa['sol']} differ from the exact ones {want}/{sc} by more "
+                           f"than eps={eps}/{sc}")
+                else:
+                    ctx.count("cert_checked_impl")
+        elif ref_status != "UNBOUNDED":
+            if R["refd"] != "UNBOUNDED":
+                j.fail(fn, "false_unbounded", f"UNBOUNDED although every reachable cycle of k edges weighs at least k*eps "
+                       f"(eps={eps}/{sc})")
+            else:
+                ctx.count("fp:tolerated:near_zero_cycle")
+    if "err" not in ot and "err" not in oa and case["bf_target"] is not None:
+        t = case["bf_target"]
+        if (ot["status"] == "UNBOUNDED") != (oa["status"] == "UNBOUNDED"):
+            j.fail(fn, "modes_disagree", f"target mode says {ot['status']}, all-distances mode {oa['status']}")
+        elif ot["status"] == "INFEASIBLE":
+            if ref_dist[t] is not None and ref_status != "UNBOUNDED":
+                j.fail(fn, "false_infeasible", f"INFEASIBLE although target {t} is reachable")
+        elif ot["status"] == "OPTIMAL" and ot["sol"] is not None:
+            found_ok(fn, ot, R["c:bellman_ford"], ref_dist[t] if ref_status != "UNBOUNDED" else None)
+        elif ot["status"] != "UNBOUNDED":
+            j.fail(fn, "bad_status", f"unexpected status/solution {ot['status']}")
+
+    # ---- floyd_warshall ------------------------------------------------------------------------------
+    fn = "floyd_warshall"
+    o = out[fn]
+    unb, mat, _ = R["fwref"]
+    if "err" in o:
+        j.fail(fn, "raises:" + o["err"], f"valid input raised {o['err']}: {o.get('msg')}")
+    else:
+        ctx.count("fp:floyd_warshall:" + o["status"])
+        if o["status"] == "UNBOUNDED":
+            if not unb and not R["fwrefd"]:
+                j.fail(fn, "false_unbounded", f"UNBOUNDED although every cycle of k edges weighs at least k*eps (eps={eps}/{sc})")
+        elif o["sol"] is None:
+            j.fail(fn, "bad_status", f"status {o['status']} without a matrix")
+        else:
+            got = [[(None if x == "inf" else _frac(x, sc)) for x in row] for row in o["sol"]]
+            if any(got[i][i] is None or got[i][i] < 0 for i in range(n)):
+                j.fail(fn, "negative_source_distance", "a diagonal entry is negative / infinite without UNBOUNDED")
+            elif unb:
+                if not all(R.get(f"feas:fw:{i}") is True for i in range(n)):
+                    j.fail(fn, "missed_negative_cycle:not_a_potential",
+                           f"status {o['status']} although an exactly negative cycle is present, and a row of the matrix "
+                           f"is not a feasible potential within eps={eps}/{sc}")
+                else:
+                    ctx.count("fp:tolerated:tiny_negative_cycle")
+            else:
+                bad = [(i, k) for i in range(n) for k in range(n)
+                       if (got[i][k] is None) != (mat[i][k] is None) or (mat[i][k] is not None and not close(got[i][k], mat[i][k]))]
+                if bad:
+                    j.fail(fn, "distances_wrong:fp", f"entries {bad[:4]} differ from the exact distances by more than eps={eps}/{sc}")
+                else:
+                    ctx.count("cert_checked_impl")
+
+    # ---- dijkstra / astar / dijkstra_edges (non-negative weights) --------------------------------------
+    if nonneg:
+        fin = [ref_dist[t] for t in T if ref_dist[t] is not None]
+        opt = min(fin) if fin else None
+        for fn in ("dijkstra", "astar", "dijkstra_edges"):
+            o = out.get(fn)
+            if o is None or (fn == "dijkstra_edges" and gm != "value"):
+                continue
+            if "err" in o:
+                j.fail(fn, "raises:" + o["err"], f"valid input raised {o['err']}: {o.get('msg')}")
+                continue
+            ctx.count(f"fp:{fn}:{o['status']}")
+            if o["status"] == "INFEASIBLE":
+                if opt is not None:
+                    j.fail(fn, "false_infeasible", "INFEASIBLE although a goal node is reachable")
+            elif o["status"] == "OPTIMAL" and o["sol"] is not None:
+                if opt is None:
+                    j.fail(fn, "path_uses_missing_edge", "a path was returned although no goal node is reachable")
+                else:
+                    found_ok(fn, o, R["c:" + fn], opt)
+            else:
+                j.fail(fn, "bad_status", f"unexpected status {o['status']}")
+        o = out.get("dijkstra_edges")
+        if o is not None and gm != "value" and "err" not in o:
+            got = {k: _frac(v, sc) for k, v in o["sol"]}
+            want = {v: ref_dist[v] for v in range(n) if ref_dist[v] is not None}
+            if set(got) != set(want) or any(not close(got[v], want[v]) for v in want):
+                j.fail("dijkstra_edges", "distances_wrong:fp", f"all-distances differ from the exact ones by more than eps={eps}/{sc}")
+            else:
+                ctx.count("cert_checked_impl")
+
+
 def judge_graph(ctx, case, out, reply, keys):
     R = dict(zip(keys, reply))
     for k, v in R.items():
@@ -683,7 +938,7 @@ def judge_graph(ctx, case, out, reply, keys):
             if v[4] is True:
                 ctx.count("cert_checked_model")
             elif v[4] is False:
-                consistent = k != "m:astar" or (case["h"]["kind"] != "bad" and case["aw"] == [1, 1])
+                consistent = k != "m:astar" or (case["h"]["kind"] not in ("bad", "exact_rounded") and case["aw"] == [1, 1])
                 if consistent:
                     raise Infra(f"mirror {k} produced an answer its own certificate rejects: {v} on {case}")
             if k in ("m:dijkstra", "m:astar") and v[5]:
@@ -727,6 +982,15 @@ def judge_graph(ctx, case, out, reply, keys):
                 j.tdiv(fn, o["sol"], m[3])
             else:
                 ctx.count("r_trace_agree")
+
+    if case.get("fp"):
+        judge_fp(j, ctx, case, out, R, ref_status, ref_dist)
+        canon = ["fp", case["n"], case["edges"], case["scale"], case["s"], case["goal"], case["h"], case["bf_target"],
+                 case["fw_directed"]]
+        bfc = R["m:bellman_ford"][4] if len(R["m:bellman_ford"]) > 4 else 0
+        ctx.case(canon, bfc >= 1, {"case": case, "impl": {k: (v if k != "floyd_warshall" else v.get("status"))
+                                                          for k, v in out.items()}, "ref_dist": ref_dist})
+        return
 
     # ---- dijkstra / astar --------------------------------------------------
     rerelax = 0
@@ -779,7 +1043,8 @@ def judge_graph(ctx, case, out, reply, keys):
     # ---- bellman_ford ------------------------------------------------------
     o, m = out["bellman_ford"], R["m:bellman_ford"]
     if "err" in o:
-        j.fail("bellman_ford", "raises:" + o["err"], f"valid input raised {o['err']}: {o.get('msg')}")
+        j.fail("bellman_ford", "no_return" if o["err"] == "Timeout" else "raises:" + o["err"],
+               f"bellman_ford did not return / raised on a valid input: {o.get('msg')}")
     else:
         ctx.count("bellman_ford:" + o["status"])
         t = case["bf_target"]
@@ -1169,6 +1434,7 @@ def run(ctx, budget):
     ng, nq = 10000 * budget, 4000 * budget
     cases += [gen_graph(ctx.rng, big and i % 3 == 0) for i in range(ng)]
     cases += [gen_grid(ctx.rng, big and i % 3 == 0) for i in range(nq)]
+    cases += [gen_graph_fp(ctx.rng) for _ in range(2500 * budget)]
     # a fixed small number of LARGE structured grids, spread evenly so that they land in different driver chunks
     nbig = 12 if budget <= 1 else 36
     bigs = [gen_big_grid(ctx.rng, i) for i in range(nbig)]
